@@ -185,6 +185,12 @@ def run(ctx):
     # what is emitted: the header, then every section in logical-layout order, then the functions (nothing skipped) -- C01's lemma 3
     import c01
     c01.emission_order_lemma(ctx, registry, mf)
+    # what the loader reads back: context-dependent literals (64-bit constants, OpSwitch cases on any 64-bit value) keep their width
+    import c10
+    import parsersym
+    rp10 = Replay()
+    c10.literal_lemmas(ctx, q, parsersym.Setting(), rp10)
+    rp10.close()
     ctx.extra["states"] = checked
     ctx.extra["transitions"] = checked
     ctx.extra["native_calls"] = native
